@@ -196,4 +196,15 @@ theorem reevaluate_stable (E : Env S) (hrec : E.recursive = true) (fuel : Nat) (
   · exact reevalLoop_stable E fuel s s' h nt hk el hel
   · rw [queueOf_nil_of_not_mem s' nt hk] at hel; cases hel
 
+/-- the state returned by the prologue is a fixpoint of `_reevaluate_` (whatever the fuel) -/
+def StableAfter (E : Env S) : Prop := ∀ fuel s', prologue E fuel (St.empty E.G) = some s' → Stable E s'
+
+/-- it is, on a grammar flagged recursive (`_reevaluate_` runs to its fixpoint) -/
+theorem stableAfter_of_rec (E : Env S) (hrec : E.recursive = true) : StableAfter E := by
+  intro fuel s' h
+  unfold prologue at h
+  split at h
+  · cases h
+  · exact reevaluate_stable E hrec fuel _ _ h
+
 end PS.Beap
